@@ -13,6 +13,13 @@
 //!     (firm owner), peer :1.5 releases N (→ genuine NameAcquired if we are next in the queue),
 //!   forged NameLost(N) / NameAcquired(N): same path/interface/member/body as the driver's signal,
 //!     sent by peer :1.9 as a unicast to us (the bus stamps `:1.9` as sender).
+//! Two more symbols per name (alphabet of 12) put a bus event INSIDE an operation instead of
+//! between operations:
+//!   request(N, AllowReplacement) with peer :1.5's RequestName(N, ReplaceExisting) processed by the
+//!     bus immediately after it granted ours (reply 1 or 4) — the driver's NameLost(N) travels
+//!     right behind our RequestName reply, before the bus answers any further call of ours;
+//!   request(N) with peer :1.5's ReleaseName(N) processed immediately after ours was queued
+//!     (reply 2) — the driver's NameAcquired(N) travels right behind the InQueue reply.
 //! After the last operation every name is probed once with release_name.
 //!
 //! Oracle (only what the statement says). Reference = what the bus has told the connection:
@@ -34,14 +41,18 @@ use vcommon::{catch, hash64, Args, Report, Violation};
 use zbus::fdo::{RequestNameFlags, RequestNameReply};
 
 use crate::{
-    fakebus::{self, Bus, F_ALLOW, F_NOQUEUE, F_REPLACE, US},
+    fakebus::{self, Armed, Bus, F_ALLOW, F_NOQUEUE, F_REPLACE, US},
     world::World,
 };
 
 const NAMES: [&str; 2] = ["x.y.N", "x.y.M"];
 const OTHER: &str = ":1.5";
 const FORGER: &str = ":1.9";
-const KINDS: usize = 10;
+/// Symbols per name: 0..10 place events between operations, 10 and 11 inside a request.
+const BASE_KINDS: usize = 10;
+const ALL_KINDS: usize = 12;
+/// Stride of the op encoding in replay artefacts.
+const CODE_STRIDE: usize = 16;
 
 type Flags = <RequestNameFlags as std::ops::BitOr>::Output;
 
@@ -62,7 +73,9 @@ fn mk_flags(bits: u32) -> Flags {
 
 #[derive(Clone, Copy, PartialEq, Eq, Debug, Hash)]
 enum Kind {
-    Req(u32),
+    /// flags, race: 0 = none, 1 = the peer takes the name right behind our grant, 2 = the peer
+    /// releases the name right behind our InQueue reply
+    Req(u32, u8),
     Release,
     PeerTakes(u32),
     PeerReleases,
@@ -76,31 +89,43 @@ struct Op {
     name: usize,
 }
 
-fn decode(code: usize) -> Op {
-    let name = code / KINDS;
-    let kind = match code % KINDS {
-        0 => Kind::Req(0),
-        1 => Kind::Req(F_ALLOW),
-        2 => Kind::Req(F_NOQUEUE),
-        3 => Kind::Req(F_REPLACE),
+fn decode_kind(k: usize, name: usize) -> Op {
+    let kind = match k {
+        0 => Kind::Req(0, 0),
+        1 => Kind::Req(F_ALLOW, 0),
+        2 => Kind::Req(F_NOQUEUE, 0),
+        3 => Kind::Req(F_REPLACE, 0),
         4 => Kind::Release,
         5 => Kind::PeerTakes(F_REPLACE | F_ALLOW),
         6 => Kind::PeerTakes(F_REPLACE),
         7 => Kind::PeerReleases,
         8 => Kind::ForgedLost,
-        _ => Kind::ForgedAcquired,
+        9 => Kind::ForgedAcquired,
+        10 => Kind::Req(F_ALLOW, 1),
+        _ => Kind::Req(0, 2),
     };
     Op { kind, name }
+}
+
+fn kind_index(k: &Kind) -> usize {
+    (0..ALL_KINDS).find(|i| decode_kind(*i, 0).kind == *k).unwrap_or(0)
+}
+
+/// Replay encoding: name * 16 + symbol.
+fn decode(code: usize) -> Op {
+    decode_kind(code % CODE_STRIDE, code / CODE_STRIDE)
 }
 
 fn label(op: &Op) -> String {
     let n = NAMES[op.name];
     match op.kind {
-        Kind::Req(0) => format!("request({n})"),
-        Kind::Req(F_ALLOW) => format!("request({n},AllowReplacement)"),
-        Kind::Req(F_NOQUEUE) => format!("request({n},DoNotQueue)"),
-        Kind::Req(F_REPLACE) => format!("request({n},ReplaceExisting)"),
-        Kind::Req(x) => format!("request({n},{x})"),
+        Kind::Req(_, 1) => format!("request({n},AllowReplacement)+peer-takes-firm-right-behind-grant"),
+        Kind::Req(_, 2) => format!("request({n})+peer-releases-right-behind-InQueue"),
+        Kind::Req(0, _) => format!("request({n})"),
+        Kind::Req(F_ALLOW, _) => format!("request({n},AllowReplacement)"),
+        Kind::Req(F_NOQUEUE, _) => format!("request({n},DoNotQueue)"),
+        Kind::Req(F_REPLACE, _) => format!("request({n},ReplaceExisting)"),
+        Kind::Req(x, _) => format!("request({n},{x})"),
         Kind::Release => format!("release({n})"),
         Kind::PeerTakes(f) if f & F_ALLOW != 0 => format!("peer-takes-replaceable({n})"),
         Kind::PeerTakes(_) => format!("peer-takes-firm({n})"),
@@ -143,7 +168,10 @@ impl Ref {
         }
     }
     fn resync(&mut self, bus: &Bus, i: usize, cause: Cause) {
-        let pos = bus.names.position(NAMES[i], US);
+        self.resync_pos(bus.names.position(NAMES[i], US), i, cause)
+    }
+    /// `pos` = our position in the bus's queue for the name (0 = primary owner).
+    fn resync_pos(&mut self, pos: Option<usize>, i: usize, cause: Cause) {
         let before = self.told[i];
         let was_implicit = self.implicit[i];
         match pos {
@@ -304,10 +332,26 @@ fn run_history(ops: &[Op], n_names: usize, no_forged: bool) -> HistResult {
         let i = op.name;
         let nm = NAMES[i];
         match op.kind {
-            Kind::Req(bits) => {
+            Kind::Req(bits, race) => {
                 let pre = rf.told[i];
                 let via = rf.via[i];
                 let n0 = bus.n_calls("RequestName");
+                let fired0 = bus.armed_fired;
+                bus.armed = match race {
+                    1 => Some(Armed {
+                        name: nm.into(),
+                        on_codes: vec![1, 4],
+                        peer: OTHER.into(),
+                        peer_request_flags: Some(F_REPLACE),
+                    }),
+                    2 => Some(Armed {
+                        name: nm.into(),
+                        on_codes: vec![2],
+                        peer: OTHER.into(),
+                        peer_request_flags: None,
+                    }),
+                    _ => None,
+                };
                 let c = conn.clone();
                 let flags = mk_flags(bits);
                 let r = catch(|| {
@@ -321,6 +365,8 @@ fn run_history(ops: &[Op], n_names: usize, no_forged: bool) -> HistResult {
                     Err(p) => Some(Err(p)),
                 };
                 let got = req_class(&r);
+                bus.armed = None;
+                let fired = bus.armed_fired > fired0;
                 let traffic = bus.n_calls("RequestName") > n0;
                 let bus_said = bus
                     .calls
@@ -332,14 +378,23 @@ fn run_history(ops: &[Op], n_names: usize, no_forged: bool) -> HistResult {
                 out.transitions += 1;
                 out.outcomes.push(format!("request:{got}"));
                 out.log.push(format!(
-                    "{} told={pre:?} -> {got}{}",
+                    "{} told={pre:?} -> {got}{}{}",
                     label(op),
                     if traffic {
                         format!(" [bus replied {}]", code_class(&bus_said))
                     } else {
                         " [answered locally]".into()
+                    },
+                    match (race, fired) {
+                        (0, _) => "",
+                        (1, true) => " [peer took the name right behind the reply: driver NameLost follows it]",
+                        (2, true) => " [peer released the name right behind the reply: driver NameAcquired follows it]",
+                        _ => " [peer action not triggered]",
                     }
                 ));
+                if race != 0 {
+                    out.outcomes.push(format!("race{race}:{}", if fired { "fired" } else { "not-triggered" }));
+                }
                 let expected: Result<&'static str, &'static str> = match pre {
                     Told::Owner => Ok("AlreadyOwner"),
                     Told::Queued => Ok("InQueue"),
@@ -370,7 +425,11 @@ fn run_history(ops: &[Op], n_names: usize, no_forged: bool) -> HistResult {
                         ],
                     });
                 }
-                if traffic {
+                if traffic && fired {
+                    // two bus transitions happened inside this call: our reply, then the peer's action
+                    rf.resync_pos(Some(if race == 1 { 0 } else { 1 }), i, Cause::OwnRequest);
+                    rf.resync(&bus, i, Cause::Peer);
+                } else if traffic {
                     rf.resync(&bus, i, Cause::OwnRequest);
                 }
             }
@@ -419,25 +478,21 @@ fn run_history(ops: &[Op], n_names: usize, no_forged: bool) -> HistResult {
     out
 }
 
-fn ops_of(index: usize, depth: usize, k: usize) -> Vec<Op> {
+fn ops_of(index: usize, depth: usize, kinds: usize, n_names: usize) -> Vec<Op> {
+    let k = kinds * n_names;
     let mut v = vec![0usize; depth];
     let mut n = index;
     for i in (0..depth).rev() {
         v[i] = n % k;
         n /= k;
     }
-    v.into_iter().map(decode).collect()
+    v.into_iter().map(|c| decode_kind(c % kinds, c / kinds)).collect()
 }
 
 fn to_violation(ops: &[Op], n_names: usize, sv: &StepViolation, log: &[String], attributed: bool) -> Violation {
     let codes: Vec<usize> = ops
         .iter()
-        .map(|o| {
-            o.name * KINDS
-                + (0..KINDS)
-                    .find(|k| decode(*k).kind == o.kind)
-                    .unwrap_or(0)
-        })
+        .map(|o| o.name * CODE_STRIDE + kind_index(&o.kind))
         .collect();
     let labels: Vec<String> = ops.iter().map(label).collect();
     let clause = if attributed { "only-driver-signals-change-state" } else { sv.clause };
@@ -468,6 +523,8 @@ fn to_violation(ops: &[Op], n_names: usize, sv: &StepViolation, log: &[String], 
 
 struct Space {
     n_names: usize,
+    /// 12 = all symbols, 10 = only the symbols that place events between operations
+    kinds: usize,
     depth: usize,
 }
 
@@ -503,20 +560,23 @@ pub fn main(args: &Args) -> i32 {
         };
     }
     let report = Report::new("C36", args.tier, args.seed, "model_checking");
-    // quick: one name to depth 5 and two names to depth 3; thorough: one name to depth 6, two to depth 4
-    // (two names to depth 5 = 3.2M histories was run once during development: same single finding).
+    // quick: one name, all 12 symbols, depth 4; one name, the 10 between-operations symbols,
+    // depth 5; two names, 12 symbols, depth 3. thorough: one step deeper each (two names to
+    // depth 5 over the 10 symbols = 3.2M histories was run once during development: same single
+    // finding).
+    let sp = |n_names, kinds, depth| Space { n_names, kinds, depth };
     let spaces: Vec<Space> = args.tier.pick(
-        vec![Space { n_names: 1, depth: 5 }, Space { n_names: 2, depth: 3 }],
-        vec![Space { n_names: 1, depth: 6 }, Space { n_names: 2, depth: 4 }],
+        vec![sp(1, ALL_KINDS, 4), sp(1, BASE_KINDS, 5), sp(2, ALL_KINDS, 3)],
+        vec![sp(1, ALL_KINDS, 5), sp(1, BASE_KINDS, 6), sp(2, ALL_KINDS, 4)],
     );
     let totals = fakebus::TreeTotals::default();
     let mut spaces_json = vec![];
     for sp in &spaces {
-        let k = KINDS * sp.n_names;
+        let k = sp.kinds * sp.n_names;
         let n = k.pow(sp.depth as u32);
         let t0 = std::time::Instant::now();
         fakebus::par_histories(&report, &totals, n, 128, |idx, acc| {
-            let ops = ops_of(idx, sp.depth, k);
+            let ops = ops_of(idx, sp.depth, sp.kinds, sp.n_names);
             let res = run_history(&ops, sp.n_names, false);
             if let Some(m) = &res.machinery {
                 vcommon::machinery_failure(&format!(
@@ -581,7 +641,7 @@ pub fn main(args: &Args) -> i32 {
     report.assume("each operation is run to quiescence on the default schedule before the next one starts (schedule variation inside an operation is not part of this check)");
     report.assume("the fake bus builds its wire messages with zbus's own message builder");
     report.finish(
-        "all histories of exactly the stated depth over the 10-symbol-per-name alphabet (every prefix is judged step by step), plus a release probe per name at the end; non-trivial = the bus granted or queued a name at some step",
+        "all histories of exactly the stated depth over the 12- (or 10-) symbol-per-name alphabet (every prefix is judged step by step), plus a release probe per name at the end; non-trivial = the bus granted or queued a name at some step",
         true,
     )
 }
